@@ -46,15 +46,38 @@ class Result:
         self.k_done = None
         self.liveness = {}
 
-    def add_violation(self, v, hist):
+    def add_violation(self, v, hist, src=None):
+        """src = (state id the violating transition starts from, 1) or (terminal state id, 0): used after the exploration
+        to compute the length of the SHORTEST explored execution that shows this violation (min_steps)"""
         v = dict(v)
         v["hist"] = list(hist)
         for old in self.violations:
             if old["kind"] == v["kind"] and old["sig"] == v["sig"]:
+                srcs = old.setdefault("_srcs", set())
+                if src is not None:
+                    srcs.add(src)
                 if len(old["hist"]) > len(v["hist"]):
+                    keep = old["_srcs"]
                     old.update(v)
+                    old["_srcs"] = keep
                 return
+        v["_srcs"] = {src} if src is not None else set()
         self.violations.append(v)
+
+    def finish_distances(self, edges):
+        import collections as _c
+        dist = {0: 0}
+        q = _c.deque([0])
+        while q:
+            s = q.popleft()
+            for t in edges[s].values():
+                if t not in dist:
+                    dist[t] = dist[s] + 1
+                    q.append(t)
+        for v in self.violations:
+            srcs = v.pop("_srcs", set())
+            ds = [dist[s] + extra for (s, extra) in srcs if s in dist]
+            v["min_steps"] = min(ds) if ds else len(v.get("hist") or [])
 
     def summary(self):
         return {"states": self.states, "transitions": self.transitions, "noops": self.noops, "merges": self.merges,
@@ -117,7 +140,7 @@ def explore(drv, job, k=None, cap=4000, H=None, audit_every=0, order=None, max_d
             if not todo:
                 # expanded completely
                 if live and users_done[sid] and all(t == sid for t in edges[sid].values()):
-                    _terminal(drv, res, w, hist)
+                    _terminal(drv, res, w, hist, sid)
                 stack.pop()
                 live = False
                 continue
@@ -148,7 +171,7 @@ def explore(drv, job, k=None, cap=4000, H=None, audit_every=0, order=None, max_d
                 fr[4] = True
             ndev = dev + cost
             for v in drv.on_step(w, a, pre):
-                res.add_violation(v, nh)
+                res.add_violation(v, nh, src=(sid, 1))
             if tsid is not None:
                 edges[sid][a] = tsid
                 res.merges += 1
@@ -194,18 +217,19 @@ def explore(drv, job, k=None, cap=4000, H=None, audit_every=0, order=None, max_d
     res.k_done = k
     if k is None and not res.capped:
         _fair_liveness(res, edges, users_done, hist_of, H)
+    res.finish_distances(edges)
     res.nontrivial = sum(1 for h in hist_of if _interleaved(h))
     res.sample = {"job": job_id(job), "hist": list(hist_of[-1])}
     res._graph = (seen, hist_of, edges, users_done)
     return res
 
 
-def _terminal(drv, res, w, hist):
+def _terminal(drv, res, w, hist, sid=None):
     res.terminals += 1
     obs, vs = drv.on_terminal(w)
     res.outcomes[json.dumps(obs, sort_keys=True, default=repr)] += 1
     for v in vs:
-        res.add_violation(v, hist)
+        res.add_violation(v, hist, src=(sid, 0) if sid is not None else None)
 
 
 def _audit(drv, job, h1, h2, res):
